@@ -30,7 +30,14 @@ func (g *respGen) headers() M {
 		if g.rng.Intn(2) == 0 {
 			h["required"] = true
 		}
-		name := []string{"X-Rate", "X-Next", "ETag", "X-Count", "Last-Seen", "X-Flags"}[g.rng.Intn(6)] + "-" + letters(i)
+		name := []string{"X-Rate", "X-Next", "ETag", "X-Count", "Last-Seen", "X-Flags", "Content-Disposition", "Content-Language", "content-range"}[g.rng.Intn(9)] + "-" + letters(i)
+		if g.rng.Intn(6) == 0 {
+			// a standard name without suffix (Content-Type itself is not a declarable header)
+			name = []string{"Content-Disposition", "Content-Language", "Location", "Retry-After", "Content-Security-Policy"}[g.rng.Intn(5)]
+			if _, dup := hs[name]; dup {
+				name += "-" + letters(i)
+			}
+		}
 		if _, isArr := h["schema"].(M)["items"]; !isArr && g.rng.Intn(5) == 0 {
 			// (array-typed component headers are refused cleanly by goag)
 			g.n++
@@ -45,7 +52,10 @@ func (g *respGen) headers() M {
 }
 
 func (g *respGen) body() M {
-	switch g.rng.Intn(11) {
+	switch g.rng.Intn(12) {
+	case 11:
+		// two JSON-flavoured media types (RFC 7807 style)
+		return M{"application/json": M{"schema": Ref("schemas", "Err")}, "application/problem+json": M{"schema": Ref("schemas", "Err")}}
 	case 9:
 		// two media types for one response: JSON wins
 		return M{"application/json": M{"schema": Ref("schemas", "Err")}, "application/octet-stream": M{"schema": M{"type": "string", "format": "binary"}}}
